@@ -16,7 +16,10 @@ SPEC = {
             "(optionally around an unjudged call or interleaved with a pair of another function), on two concurrent threads, and ping-ponged between two threads; a from the boundary/random families, "
             "d from a delta table in every natural unit of the argument: 0, +-1 unit, +-(half) a printed digit, aligned-cell boundaries / midpoint / mirror, +-k*U, "
             "+-k*2^j*U + r*U + jitter for j in {8,15,16,24,31,32,33,40,48,56,63}, r in [-61,61], U in {us, ms, s, min, h, day, printed digit} / {byte, 1024^m, printed digit} (every step that fits the domain, e.g. k*2^32 s + r s), "
-            "other precision / flag, f's own round trip; every call judged alone by the same oracles (event counters pairs:<fn>:<delta class> = pairs executed per class); sizes: 2^(10k) x {1, 1023/1024, 1.005, 1.995, 999.994, 1023.99, ...} +- 2, "
+            "other precision / flag, f's own round trip; every call judged alone by the same oracles (event counters pairs:<fn>:<delta class> = pairs executed per class); PRIOR HISTORIES: for every entry of the shared catalogue of earlier unrelated uses of phosg's helpers (harness/vf_history.hh, ~280: one string_printf output of every length 0..132 and "
+            "2^k +- 3 up to 64 Ki and 1 Mi, runs of 5000 short outputs with / without a leading 8 KiB one, join/split/fgets over a size ladder, the escapers, the formatters, hash hex) plus a seeded sample of two-step histories: "
+            "fresh thread -> prior -> mini-workload of every function (format_duration over all five magnitude branches x 4-5 precisions, format_time, format_size both flags + parse_size read-back, parse_size -> format_size, timeval both ways; ~130 calls), "
+            "each judged alone by the same oracles (classes prior:<family>:<fn>); sizes: 2^(10k) x {1, 1023/1024, 1.005, 1.995, 999.994, 1023.99, ...} +- 2, "
             "2^k +- 1, 0..4095, rounding ties, random, both include_bytes values, and canonical texts back through "
             "parse_size -> format_size; timeval: 2^k +- 1, second boundaries, random to 2^63. "
             "distinct_nontrivial = distinct (function, magnitude branch, precision, shape of the seconds field / calendar "
@@ -29,7 +32,9 @@ SPEC = {
                   "from every unit boundary, carry point and rounding tie could be missed. Call-sequence dependence (memoisation, "
                   "per-thread or shared caches keyed on a narrowed / truncated / hashed argument) is exercised by the call-pair family: "
                   "~320 delta classes x >= 1000 pairs each in quick; a dependence on a history longer than the previous few calls of the "
-                  "same function, or on a delta outside the table, could be missed.",
+                  "same function, or on a delta outside the table, could be missed. Dependence on what the calling thread did earlier with the shared "
+                  "helpers (string_printf and friends) is exercised by the prior-history family: each of the ~280 catalogue entries once per run, on a fresh thread; "
+                  "a dependence on a prior outside the catalogue (other lengths, three-step histories, state shared between threads) could be missed.",
     "stages": [
         {"name": "c18", "variant": "asan", "shards": (16, 16), "timeout": (600, 3600)},
         {"kind": "py", "name": "c18-dump", "func": "c18:stage", "shards": (8, 16)},
@@ -50,6 +55,9 @@ SPEC = {
         "pair:size:other-flag", "pair:size:roundtrip", "pair:parse:zero", "pair:parse:same-buffer", "pair:parse:other-unit", "pair:parse:roundtrip",
         "pair:u2tv:pow2*us", "pair:u2tv:pow2*s", "pair:u2tv:roundtrip", "pair:tv2u:pow2*us", "pair:tv2u:pow2*s", "pair:tv2u:zero",
         "pairmode:seq", "pairmode:threads", "pairmode:pingpong", "py:time:pair:pow2*s", "py:time:pair:zero",
+        "prior:none:dur", "prior:printf-len:dur", "prior:printf-len:time", "prior:printf-len:size", "prior:printf-len:timeval",
+        "prior:printf-run:dur", "prior:printf-run:size", "prior:join:dur", "prior:fgets:size", "prior:split:dur", "prior:escape:dur",
+        "prior:format:size", "prior:hash-hex:dur", "prior:two-step:dur", "prior:two-step:size",
         "time:day-boundary", "time:leap-year", "time:leap-century", "time:nonleap-century", "time:common-year",
         "time:second59", "time:year-end", "time:random:99xx", "time:random:19xx", "time:extreme",
         "size:bytes:0:*", "size:KB:0:*", "size:MB:1:*", "size:GB:0:*", "size:TB:0:*", "size:PB:0:*", "size:EB:0:*",
